@@ -52,17 +52,26 @@ def mk_trend(es, ns, deg, pdeg, coef, kind, s=1.0):
             "op": f"trend_fit {C.enc(es)} {C.enc(ns)} {C.enc(d)} none {deg} {C.enc(qe)} {C.enc(qn)}"}
 
 
+def _forces(es, ns, params):
+    """Explicit force positions: every data point once, in ANOTHER order (sorted by northing, then easting) - still one force under every datum."""
+    if not params.get("forces"):
+        return None
+    order = sorted(range(len(es)), key=lambda k: (ns[k], -es[k]))
+    return (np.array([es[k] for k in order]), np.array([ns[k] for k in order]))
+
+
 def mk_exact(which, es, ns, shape2d, data, params, kind):
     """Spline / vector: model solves the implementation's square system exactly; others: oracle only."""
     op = "power_comb 0"
     with warnings.catch_warnings():
         warnings.simplefilter("ignore")
         coords = (np.array(es), np.array(ns))
+        fc = _forces(es, ns, params) or coords
         if which == "spline":
-            J = vd.Spline(mindist=params.get("mindist", 0)).jacobian(coords, coords)
+            J = vd.Spline(mindist=params.get("mindist", 0)).jacobian(coords, fc)
             op = f"lstsq {C.enc(J.tolist())} {C.enc(data[0])} none none {J.shape[1]}"
         elif which == "vector":
-            J = vd.VectorSpline2D(poisson=params["poisson"], mindist=params["mindist"]).jacobian(coords, coords)
+            J = vd.VectorSpline2D(poisson=params["poisson"], mindist=params["mindist"]).jacobian(coords, fc)
             op = f"lstsq {C.enc(J.tolist())} {C.enc(list(data[0]) + list(data[1]))} none none {J.shape[1]}"
         elif which == "knn":
             op = f"knn {C.enc(es)} {C.enc(ns)} {C.enc(data[0])} 1 mean {C.enc([[x, y] for x, y in zip(es, ns)])}"
@@ -86,6 +95,9 @@ def corpus():
     # families that must be exercised on EVERY run, whatever the seed (each was once needed to expose a seeded change):
     e8, n8 = pts(rng, 8, 1.0, 0.0)
     d8 = [rng.randint(-32, 32) / 4.0 for _ in e8]
+    # forces given explicitly: one under every data point, listed in another order (the system is square but no longer symmetric)
+    cs.append(mk_exact("vector", e8, n8, [8], [d8, d8[::-1]], {"poisson": 0.5, "mindist": 2.0, "forces": "permuted"}, "corpus-vector-forces-permuted"))
+    cs.append(mk_exact("spline", e8, n8, [2, 4], [d8, d8[::-1]], {"mindist": 1.0, "forces": "permuted"}, "corpus-spline-forces-permuted"))
     for which, params in (("vector", {"poisson": 0.0, "mindist": 2.0}), ("spline", {}), ("chain-trend-spline", {}), ("vector-of", {}),
                           ("chain-trend-linear-knn", {}), ("chain-trend-trend-spline", {})):
         cs.append(mk_exact(which, e8, n8, [2, 4], [d8, d8[::-1]], params, "corpus-2d-" + which))       # 2-D arrays
@@ -132,7 +144,9 @@ def generate(rng, tier):
         params = {"spline": {"mindist": rng.choice([0, 0, 1e-3 * scale, scale])},
                   "vector": {"poisson": rng.choice([-1.0, -0.5, 0.0, 0.5, 1.0]), "mindist": rng.choice([0.5, 2.0, 8.0]) * scale},
                   "linear": {"rescale": rng.random() < 0.5}, "cubic": {"rescale": rng.random() < 0.5}}.get(which, {})
-        cs.append(mk_exact(which, es, ns, shape2d, data, params, which))
+        if which in ("spline", "vector") and rng.random() < 0.25:
+            params = dict(params, forces="permuted")
+        cs.append(mk_exact(which, es, ns, shape2d, data, params, which + ("-forces-permuted" if params.get("forces") else "")))
     return cs
 
 
@@ -172,12 +186,15 @@ def impl(case):
                 return {"coef": [float(v) for v in t.coef_], "pred": [float(v) for v in t.predict((np.array(qe), np.array(qn)))]}
             which, es, ns, shape2d, data, params = a
             g, ncomp = build(which, params)
+            fc = _forces(es, ns, params)
+            if fc is not None:
+                g.set_params(force_coords=fc)
             coords = (C.mkarr(es, shape2d, "es:" + case["op"]), C.mkarr(ns, shape2d, "ns:" + case["op"]))
             d = tuple(C.mkarr(x, shape2d, f"d{i}:" + case["op"]) for i, x in enumerate(data[:ncomp]))
             if all(float(v).is_integer() for x in data[:ncomp] for v in x):
                 d = tuple(np.asarray(x).astype("int64") for x in d)      # "all finite data values": also integer-typed ones
             import zlib
-            if which != "vector" and zlib.crc32(("hist" + case["op"]).encode()) % 3 == 0:      # (VectorSpline2D documents its force memory)
+            if which != "vector" and fc is None and zlib.crc32(("hist" + case["op"]).encode()) % 3 == 0:      # (VectorSpline2D documents its force memory)
                 # history: the same object was fitted before, to FEWER points elsewhere; exactness must hold for the latest fit
                 m0 = max(3, len(es) // 2)
                 pe = np.array([es[0] + 0.37 * (es[-1] - es[0] + 1.0) * (k % 5) - 0.11 * k * k for k in range(m0)]) + 0.013
@@ -187,6 +204,8 @@ def impl(case):
                     g.fit((pe, pn), pd_[0] if ncomp == 1 else pd_)
                 except Exception:  # noqa: BLE001  (degenerate warm-up cloud for a Delaunay-based gridder: history simply absent)
                     g, _ = build(which, params)
+                    if fc is not None:
+                        g.set_params(force_coords=fc)
             g.fit(coords, d[0] if ncomp == 1 else d)
             pred = g.predict(coords)
             pred = (pred,) if ncomp == 1 else pred
@@ -203,10 +222,11 @@ def _cond(case):
     with warnings.catch_warnings():
         warnings.simplefilter("ignore")
         J = None
+        fc = _forces(es, ns, params) or coords
         if which in ("spline", "chain-trend-spline", "vector-of", "chain-trend-trend-spline"):
-            J = vd.Spline(mindist=params.get("mindist", 0)).jacobian(coords, coords)
+            J = vd.Spline(mindist=params.get("mindist", 0)).jacobian(coords, fc)
         if which == "vector":
-            J = vd.VectorSpline2D(poisson=params["poisson"], mindist=params["mindist"]).jacobian(coords, coords)
+            J = vd.VectorSpline2D(poisson=params["poisson"], mindist=params["mindist"]).jacobian(coords, fc)
         if J is not None:
             sd = J.std(axis=0)      # least_squares solves the unit-variance-column system: its conditioning counts too
             return float(max(np.linalg.cond(J), np.linalg.cond(J / np.where(sd == 0, 1.0, sd))))
